@@ -146,6 +146,9 @@ func (e *Exec) instrWrites(fn *ssa.Function, in ssa.Instruction, ws map[string]b
 	switch x := in.(type) {
 	case *ssa.Alloc:
 		t := x.Type().Underlying().(*types.Pointer).Elem()
+		if strings.Contains(t.String(), "sync.WaitGroup") {
+			ws["G$wgtok"], ws["G$wgst"] = true, true
+		}
 		if isStruct(t) {
 			ws[wsAlloc] = true
 			e.structHeaps(t, ws)
@@ -170,18 +173,39 @@ func (e *Exec) instrWrites(fn *ssa.Function, in ssa.Instruction, ws map[string]b
 		ws[e.elemHeap(x.Type().Underlying().(*types.Slice).Elem())] = true
 	case *ssa.MakeChan:
 		ws[wsAlloc] = true
+		ws["G$mayclose"] = true
 	case *ssa.Convert:
 		if sl, ok := x.Type().Underlying().(*types.Slice); ok {
 			ws[wsAlloc] = true
 			ws[e.elemHeap(sl.Elem())] = true
 		}
 	case *ssa.Go:
+		// the spawner hands over the permissions the goroutine `holds`
+		if sc := e.goCallee(&x.Call); sc != nil {
+			if spec := e.specOf(sc); spec != nil {
+				for _, h := range spec.Holds {
+					ws["G$"+h.Fn] = true
+				}
+			}
+		}
 		e.callWrites(&x.Call, ws)
 	case *ssa.Call:
 		e.callWrites(&x.Call, ws)
 	case *ssa.Defer:
 		e.callWrites(&x.Call, ws)
 	}
+}
+
+// goCallee: the function a go statement starts, if it is known statically
+// (a function, or a closure made in the same function).
+func (e *Exec) goCallee(c *ssa.CallCommon) *ssa.Function {
+	if sc := c.StaticCallee(); sc != nil {
+		return sc
+	}
+	if mc, ok := c.Value.(*ssa.MakeClosure); ok {
+		return mc.Fn.(*ssa.Function)
+	}
+	return e.resolveLocalClosure(c.Value)
 }
 
 func (e *Exec) structHeaps(t types.Type, ws map[string]bool) {
@@ -259,6 +283,8 @@ func (e *Exec) callWrites(c *ssa.CallCommon, ws map[string]bool) {
 		case "delete":
 			md, mv := e.mapHeaps(c.Args[0].Type().Underlying().(*types.Map))
 			ws[md], ws[mv] = true, true
+		case "close":
+			ws["G$mayclose"] = true
 		}
 		return
 	}
